@@ -245,3 +245,13 @@ CHECKS['C03']['parallel'] = 16
 CHECKS['C02']['parts'].append(dict(name='capacity', harness='c02_flood', sources=['harness/c02_flood.c'], libs=ALL_LIBS, variant='asan', replayable=True,
                                    quick=[[]], thorough=[[]]))
 CHECKS['C02']['bounds']['quick'] += '; capacity runs N in {1,100,8191,8192,8193,9000} x {plain,AUTOFREE} against the real pipe'
+
+# C04: third part - tasks in flight when their module stops (schedx on the core, ASan)
+def _c04task(scn, budget, dl):
+    return ['--scenario', scn, '--budget', budget, '--deadline', dl, '--workers', 4, '--prune', 1]
+
+
+CHECKS['C04']['parts'].append(schedx_part('task', 'c04_task', ALL_LIBS, quick=[_c04task(s, 2, 100) for s in range(6)], thorough=[_c04task(s, 3, 600) for s in range(6)]))
+# the same scenarios under TSan, as part of C14 (task sources running concurrently with their context); pause/resume with a task in flight is excluded (it restarts the task: unspecified)
+CHECKS['C14']['parts'].append(schedx_part('task-tsan', 'c04_task', ALL_LIBS, variant='tsan', quick=[_c04task(s, 2, 100) for s in (0, 1, 2, 4, 5)], thorough=[_c04task(s, 3, 600) for s in (0, 1, 2, 4, 5)]))
+CHECKS['C04']['bounds']['quick'] += '; task in flight: 6 scenarios (deliver, stop, deregister, pause/resume, quit, stop+restart while the task body runs), every interleaving with the pool worker within 2 preemptions'
